@@ -46,7 +46,7 @@ Accepts(toks) == RunFrom(<<>>, toks, 1)
 (* ------------------------------------------------------------------ C13 table *)
 StanzaTypes == {"iq", "message", "presence"}
 HelpTypes   == {"iq.help", "message.help", "presence.help"}
-C13Types    == StanzaTypes \cup HelpTypes \cup {"stanzaerror", "streamerror"}
+C13Types    == StanzaTypes \cup HelpTypes \cup {"stanzaerror", "streamerror", "encode.pair"}
 KindOf(ty) == CASE ty \in {"iq", "iq.help"} -> "iq"
                 [] ty \in {"message", "message.help"} -> "message"
                 [] OTHER -> "presence"
@@ -54,7 +54,7 @@ KindOf(ty) == CASE ty \in {"iq", "iq.help"} -> "iq"
 (* JSON -> abstract: lists that stand for sets become sets *)
 AbsErr(e) == [by |-> e.by, type |-> e.type, cond |-> e.cond, texts |-> SeqSet(e.texts)]
 C13AbsV(ty, v) ==
-  CASE ty = "stanzaerror" -> AbsErr(v)
+  CASE ty = "stanzaerror" -> [by |-> v.by, type |-> v.type, cond |-> v.cond, texts |-> SeqSet(v.texts), app |-> v.app]
     [] ty \in HelpTypes -> [st |-> v.st, pl |-> v.pl, er |-> AbsErr(v.er)]
     [] OTHER -> v
 C13AbsD(ty, exp, val) ==
@@ -68,12 +68,15 @@ C13Values(ty) ==
     [] ty \in HelpTypes -> Helps(KindOf(ty))
     [] ty = "stanzaerror" -> StanzaErrors
     [] ty = "streamerror" -> StreamErrors
+    [] ty = "encode.pair" -> EncodePairs
 
 (* acceptable abstract results of a decoded view with expectation name exp *)
 C13Expect(ty, exp, av) ==
   CASE ty \in StanzaTypes -> {Decoded(ty, av)}
-    [] ty = "stanzaerror" -> StanzaErrorNorms(av)
+    [] ty = "stanzaerror" -> StanzaErrorNorms(ErrCore(av))        \* the application condition is not decoded
     [] ty = "streamerror" -> {StreamErrorNorm(av)}
+    \* plain values through a session: what arrives on the wire is the stanza that was given
+    [] ty = "encode.pair" -> {SentStanza(IF exp = "outer" THEN av.outer ELSE av.inner)}
     [] exp = "st" -> {Decoded(KindOf(ty), av.st)}                       \* Wrap keeps the kind
     [] exp = "payload" -> {[pl |-> av.pl]}                              \* ... and the payload
     [] exp = "result" -> {Decoded(KindOf(ty), Result(av.st))}
@@ -89,6 +92,7 @@ C13ReqEnc(ty) ==
     [] ty \in HelpTypes -> {"wrap", "wrapbytes", "error", "errorbytes"}
     [] ty = "stanzaerror" -> {"marshal", "tokenreader", "trbytes", "writexml", "wrapapp", "wrapappbytes"}
     [] ty = "streamerror" -> {"marshal", "tokenreader", "trbytes", "writexml"}
+    [] ty = "encode.pair" -> {"outer/marshal", "outer/session", "inner/marshal", "inner/session"}
 C13ReqDec(ty) ==
   CASE ty \in StanzaTypes -> StanzaDec
     [] ty = "iq.help" -> {"wrap/new", "wrap/inner", "wrapbytes/inner", "result/new", "result/inner", "error/new",
@@ -98,6 +102,7 @@ C13ReqDec(ty) ==
     [] ty = "stanzaerror" -> {"marshal/unmarshal", "tokenreader/decode", "trbytes/unmarshal", "writexml/unmarshal",
                               "wrapapp/decode", "wrapapp/unmarshalerror", "wrapappbytes/unmarshal"}
     [] ty = "streamerror" -> {"marshal/unmarshal", "tokenreader/decode", "trbytes/unmarshal", "writexml/unmarshal"}
+    [] ty = "encode.pair" -> {"outer/marshal/unmarshal", "outer/session/unmarshal", "inner/marshal/unmarshal", "inner/session/unmarshal"}
 
 Symbols == [str |-> StrSym, jid |-> JidSym, time |-> TimeSym, int |-> IntSym, bytes |-> BytesSym]
 
@@ -113,7 +118,8 @@ Txt   == IF Quick THEN {"S_empty", "S_a", "S_xml", "S_uni", "S_ml"}
 NeTxt == Txt \ {"S_empty"}
 Txt3  == {"S_empty", "S_a", "S_xml"}
 Jids  == JidSyms
-Times == {"T_zero", "T_utc", "T_frac", "T_east", "T_west"}
+(* every instant in every zone offset class (Stanza.tla) *)
+Times == DOMAIN TimeSym
 UInts == {"N_0", "N_1", "N_7", "N_max32", "N_max64"}
 Bools == BOOLEAN
 Opt(S) == {<<>>} \cup {<<x>> : x \in S}
@@ -302,12 +308,20 @@ RECURSIVE SeqNorms2(_)
 SeqNorms2(fs) == IF fs = <<>> THEN {<<>>} ELSE {<<h>> \o t : h \in FormNorms(fs[1]), t \in SeqNorms2(Tail(fs))}
 Perms(sq) == {p \in [1..Len(sq) -> SeqSet(sq)] : \A x \in SeqSet(sq) : Cardinality({i \in 1..Len(sq) : sq[i] = x}) = Cardinality({i \in 1..Len(sq) : p[i] = x})}
 OffsetOf(t) == TimeSym[t][3]
+(* XEP-0082 recommends UTC on the wire and a decoder may return any zone: a time field is the  *)
+(* INSTANT (the zone offset is part of the value only where the type carries it: xtime)        *)
+TimeFields(ty) == CASE ty \in {"delay", "stanza.delay", "forward", "carbons", "xtime"} -> {"time"}
+                    [] ty = "file.meta" -> {"date"}
+                    [] ty = "history.query" -> {"start", "end"}
+                    [] OTHER -> {}
+Instants2(ty, v) == [f \in DOMAIN v |-> IF f \in TimeFields(ty) THEN InstOf(v[f]) ELSE v[f]]
 (* acceptable decoded values; by default the value itself *)
-C19Expect(ty, exp, av) ==
+C19Expect(ty, exp, av0) ==
+  LET av == Instants2(ty, av0) IN
   CASE ty = "form" -> FormNorms(av)
     [] ty = "disco.info" -> {[av EXCEPT !.forms = fs] : fs \in SeqNorms2(av.forms)}
     \* xtime: the instant and the zone offset (tzo) are both part of the value
-    [] ty = "xtime" -> {[time |-> av.time, off |-> OffsetOf(av.time)]}
+    [] ty = "xtime" -> {[time |-> av.time, off |-> OffsetOf(av0.time)]}
     [] ty = "forward" /\ exp = "norm" -> {[from |-> av.from, time |-> av.time, reason |-> av.reason]}
     \* blocklist.Item.TokenReader: a report without a reason is reported as spam ("reason := ReasonSpam")
     [] ty = "blocklist.item" ->
@@ -330,30 +344,52 @@ Base2(doms) == [f \in DOMAIN doms |-> IF \E x \in doms[f] : x # Base(doms)[f]
                                         THEN CHOOSE x \in doms[f] : x # Base(doms)[f] ELSE Base(doms)[f]]
 ShapeBases(ty) ==
   CASE ty = "stanzaerror" -> HelpErrors
-    [] ty = "streamerror" -> {[err |-> "host-gone", texts |-> <<>>, content |-> "S_empty", app |-> FALSE],
-                              [err |-> "see-other-host", texts |-> <<P("S_en", "S_uni")>>, content |-> "S_a", app |-> TRUE]}
+    [] ty = "streamerror" -> {[err |-> "host-gone", texts |-> <<>>, content |-> "S_empty", app |-> NoApp],
+                              [err |-> "see-other-host", texts |-> <<P("S_en", "S_uni")>>, content |-> "S_a", app |-> PlainApp]}
     [] OTHER -> {v \in {Base(Dom(ty)), Base2(Dom(ty))} : Admit(ty, v)}
 ShapeValues == UNION {{[ty |-> t, v |-> x, shape |-> sh, k |-> k] : x \in ShapeBases(t), sh \in Shapes, k \in ShapeKs}
                       : t \in DecodableTypes}
 Outcomes == {[outcome |-> "value"], [outcome |-> "error"]}
-C19All == C19Types \cup {"shape"}
+
+(* ------------------------------------------------------------------ decoding into a receiver that is in use *)
+(* "Unmarshalling ... into any of these types returns a value or an error": the receiver is ANY  *)
+(* value of the type, not only a fresh one.  A scenario decodes the encoding of a and then the   *)
+(* encoding of b into the SAME variable (bytes: xml.Unmarshal; tokens: xml.NewTokenDecoder).     *)
+(* Pairs: one field varied over its whole domain on both sides (lengths growing, shrinking,      *)
+(* equal; present then absent and back) for the fields with at most 6 values, and every          *)
+(* single-field variation before / after the two base values (all fields different).            *)
+ReuseBases(ty) == {v \in {Base(Dom(ty)), Base2(Dom(ty))} : Admit(ty, v)}
+ReusePairsOf(ty) ==
+  IF ty \in {"stanzaerror", "streamerror"} THEN ShapeBases(ty) \X ShapeBases(ty)
+  ELSE LET d  == Dom(ty)
+           b2 == Base2(d)
+           star == {[b2 EXCEPT ![c[1]] = c[2]] : c \in FieldChoices(d)}
+           same == UNION {{<<[b2 EXCEPT ![f] = x], [b2 EXCEPT ![f] = y]>> : x, y \in d[f]}
+                          : f \in {g \in DOMAIN d : Cardinality(d[g]) <= 6}}
+       IN {p \in same \cup (star \X ReuseBases(ty)) \cup (ReuseBases(ty) \X star) : Admit(ty, p[1]) /\ Admit(ty, p[2])}
+ReuseValues == UNION {{[ty |-> t, a |-> p[1], b |-> p[2]] : p \in ReusePairsOf(t)} : t \in DecodableTypes}
+C19All == C19Types \cup {"shape", "reuse"}
 
 (* ------------------------------------------------------------------ dispatch *)
-KnownTypes          == C13Types \cup C19Types \cup {"shape"}
-Values(ty)          == IF ty \in C13Types THEN C13Values(ty) ELSE IF ty = "shape" THEN ShapeValues ELSE C19Values(ty)
+KnownTypes          == C13Types \cup C19Types \cup {"shape", "reuse"}
+Values(ty)          == IF ty \in C13Types THEN C13Values(ty) ELSE IF ty = "shape" THEN ShapeValues
+                       ELSE IF ty = "reuse" THEN ReuseValues ELSE C19Values(ty)
 AbsV(ty, v)         == IF ty \in C13Types THEN C13AbsV(ty, v) ELSE v
 AbsD(ty, exp, val)  == IF ty \in C13Types THEN C13AbsD(ty, exp, val) ELSE val
 Expect(ty, exp, av) == IF ty \in C13Types THEN C13Expect(ty, exp, av)
                        ELSE IF ty = "shape" THEN Outcomes ELSE C19Expect(ty, exp, av)
 InValues(ty, av)    == IF ty \in C13Types THEN av \in C13Values(ty)
                        ELSE IF ty = "shape" THEN av.ty \in DecodableTypes /\ av.shape \in Shapes /\ av.k \in ShapeKs
+                       ELSE IF ty = "reuse" THEN av.ty \in DecodableTypes
                        ELSE InProduct(Dom(ty), av) /\ Admit(ty, av)
 (* which encoders / decoded views an observation of the type must contain *)
+ReuseModes == {"bytes", "tokens"}
+ReuseViews == {"zero", "fresh1", "fresh2", "reused"}
 Trio    == {"marshal", "tokenreader", "trbytes", "writexml"}
 TrioDec == {"marshal/unmarshal", "tokenreader/decode", "trbytes/unmarshal", "writexml/unmarshal"}
 ReqEnc(ty, av) ==
   CASE ty \in C13Types -> C13ReqEnc(ty)
-    [] ty = "shape" -> {}
+    [] ty \in {"shape", "reuse"} -> {}
     [] ty = "muc.item" -> {"marshal", "marshalptr"}                        \* struct tags only
     [] ty = "carbons" -> {"wrap", "wrapbytes"}
     [] ty = "forward" -> Trio \cup {"wrap", "wrapbytes"}
@@ -361,6 +397,7 @@ ReqEnc(ty, av) ==
 ReqDec(ty, av) ==
   CASE ty \in C13Types -> C13ReqDec(ty)
     [] ty = "shape" -> {"tokens/decode", "bytes/unmarshal"}
+    [] ty = "reuse" -> {m \o "/" \o w : m \in ReuseModes, w \in ReuseViews}
     [] ty = "muc.item" -> {"marshal/unmarshal", "marshalptr/unmarshal"}
     [] ty = "carbons" -> {"wrap/unwrap", "wrapbytes/unwrap"}
     [] ty = "forward" -> TrioDec \cup {"wrap/unwrap", "wrapbytes/unwrap"}
@@ -383,7 +420,25 @@ AV(o)         == AbsV(o.ty, o.v)
 View(o, d)    == AbsD(o.ty, d.exp, d.val)
 PathsAgree(o) == \A d1, d2 \in Decs(o) :
                    (d1.err = "" /\ d2.err = "" /\ d1.exp = d2.exp) => View(o, d1) = View(o, d2)
-RoundTrip(o)  == \A d \in Decs(o) : d.err = "" => View(o, d) \in Expect(o.ty, d.exp, AV(o))
+RoundTrip(o)  == o.ty = "reuse" \/ \A d \in Decs(o) : d.err = "" => View(o, d) \in Expect(o.ty, d.exp, AV(o))
+(* Decoding into a used receiver.  Every view is [outcome |-> "value", leaves |-> l] or [outcome |->  *)
+(* "error"]; l maps every leaf path of the projection to a SEQUENCE (a scalar is a sequence of one).  *)
+(* No decoder may panic (NoFailure).  The property does not say whether a decoder resets its         *)
+(* receiver: encoding/xml leaves what a document does not mention and appends to lists, so for every *)
+(* leaf the used receiver may keep what it held if the document b says nothing about it (the fresh   *)
+(* decode of b leaves the leaf as in an untouched receiver), and otherwise holds everything the      *)
+(* fresh decode of b gives and nothing that comes from neither document.                             *)
+DecAt(o, p) == CHOOSE d \in Decs(o) : d.p = p
+IsValue(d) == d.err = "" /\ d.val.outcome = "value"
+LeafOK(z, f1, f2, r) == \/ f2 = z /\ r = f1
+                        \/ SeqSet(f2) \subseteq SeqSet(r) /\ SeqSet(r) \subseteq SeqSet(f1) \cup SeqSet(f2)
+ReuseOK(o) ==
+  o.ty = "reuse" =>
+    \A m \in ReuseModes :
+      ((\A w \in ReuseViews : \E d \in Decs(o) : d.p = m \o "/" \o w) /\ (\A w \in ReuseViews : IsValue(DecAt(o, m \o "/" \o w))))
+      => LET L(w) == DecAt(o, m \o "/" \o w).val.leaves
+         IN /\ \A w \in ReuseViews : DOMAIN L(w) = DOMAIN L("reused")
+            /\ \A f \in DOMAIN L("reused") : LeafOK(L("zero")[f], L("fresh1")[f], L("fresh2")[f], L("reused")[f])
 (* WellFormed is decided on the token lists by the automaton; rejected = ids of the   *)
 (* token lists the automaton did not accept                                           *)
 WellFormed(o, rejected) == \A e \in Encs(o) : e.tl \notin rejected
@@ -395,4 +450,5 @@ Failed(o, rejected) ==
        \cup (IF WellFormed(o, rejected) THEN {} ELSE {"WellFormed"})
        \cup (IF PathsAgree(o) THEN {} ELSE {"PathsAgree"})
        \cup (IF RoundTrip(o) THEN {} ELSE {"RoundTrip"})
+       \cup (IF ReuseOK(o) THEN {} ELSE {"Reuse"})
 =============================================================================
